@@ -118,6 +118,10 @@ where
     // due to a previous runge-kutta step
     yield_memory: usize,
 
+    // Set when the runge-kutta steps are handed over without a bdf step confirming them
+    // (the interval ended first), so that no bdf step is yielded after them
+    skip_sentinel: bool,
+
     _lifetime: PhantomData<&'a ()>,
 }
 
@@ -348,6 +352,7 @@ where
                 two,
                 order,
                 yield_memory: 0,
+                skip_sentinel: false,
                 _lifetime: PhantomData,
             },
             finished: false,
@@ -552,10 +557,18 @@ where
             // set yield_memory to the sentinel value O+2 so that the next step() call
             // will yield the value in self.state (the bdf step that was within
             // tolerance after these runge-kutta steps)
+            let item = self.prev_values[get_item].clone();
             if self.yield_memory == 0 {
-                self.yield_memory = O + 2;
+                if self.skip_sentinel {
+                    // Unconfirmed runge-kutta steps at the end of the interval: there is no
+                    // bdf step to yield, carry on from the last runge-kutta step.
+                    self.skip_sentinel = false;
+                    self.prev_values.clear();
+                } else {
+                    self.yield_memory = O + 2;
+                }
             }
-            return Ok(self.prev_values[get_item].clone());
+            return Ok(item);
         }
 
         // Sentinel value to signify that the runge-kutta steps are yielded
@@ -571,6 +584,15 @@ where
             return Ok((self.time.real(), self.state.clone()));
         }
 
+        // The runge-kutta steps reached the end of the interval (or are within one step of it)
+        // before a bdf step could confirm them. Hand them over as they are instead of
+        // dropping them: like the final step below, they are accepted unverified.
+        if self.yield_memory == O + 1 && self.time.real() + self.dt.real() >= self.end.real() {
+            self.yield_memory = O;
+            self.skip_sentinel = true;
+            return Err(IVPStatus::Redo);
+        }
+
         if self.time.real() >= self.end.real() {
             return Err(IVPStatus::Done);
         }
@@ -584,7 +606,9 @@ where
         if self.prev_values.is_empty() {
             self.save_state = self.state.clone();
             if self.time.real() + self.dt.real() * self.order.real() >= self.end.real() {
-                self.dt = (self.end - self.time) / self.order;
+                // Leave room for the final step, which lands exactly on the end: O steps of
+                // (end - time) / O can overshoot the end by rounding.
+                self.dt = (self.end - self.time) / (self.order + Self::Field::one());
             }
             self.runge_kutta(O)?;
             self.yield_memory = O + 1;
@@ -668,6 +692,7 @@ where
             // We took Order runge kutta steps at this dt
             self.time -= self.dt * self.order;
             self.state = self.save_state.clone();
+            self.yield_memory = 0;
         }
 
         self.dt *= self.half;
